@@ -35,7 +35,7 @@ IsIntTok(t) == \E i \in DOMAIN IntToks : IntToks[i] = t
 IntOf(t)    == CHOOSE i \in DOMAIN IntToks : IntToks[i] = t
 \* the float tokens and the integer each is nearest to (no ties among them)
 FloatNear(t) ==
-  CASE t = "1.4" -> 1 [] t = "1.6" -> 2 [] t = "3.7" -> 4 [] t = "2.7" -> 3 [] t = "0.4" -> 0 [] t = "6.2" -> 6
+  CASE t = "1.4" -> 1 [] t = "1.6" -> 2 [] t = "3.7" -> 4 [] t = "2.7" -> 3 [] t = "0.4" -> 0 [] t = "0.6" -> 1 [] t = "6.2" -> 6
     [] t = "9.8" -> 10 [] t = "-2.5" -> -3 [] t = "-0.3" -> 0 [] t = "-inf" -> -1000 [] t = "nan" -> -1000
 Clamp0(x)   == IF x < 0 THEN 0 ELSE x
 TakeCount(tok) == IF IsIntTok(tok) THEN Clamp0(IntOf(tok)) ELSE Clamp0(FloatNear(tok))
